@@ -90,6 +90,10 @@ def cq_graph(nodes):
     ])
 
 
+KEYWORD_NAMES = ["properties", "patternProperties", "additionalProperties", "propertyNames", "dependencies", "items", "additionalItems",
+                 "contains", "elements", "element", "required", "default"]
+
+
 def build_case(rng, tier):
     """Random class graph with each dependency wrapped into a random keyword position."""
     from statham.schema.elements import (
@@ -158,7 +162,16 @@ def build_case(rng, tier):
                 shared_wrappers.append(val)
         slot = rng.choice(["prop", "prop", "additionalProperties", "patternProperties", "propertyNames", "dependencies"])
         if slot == "prop":
-            cls.properties["p%d" % len(cls.properties)] = Property(val)
+            # now and then a property NAMED like a keyword the orderer follows (as attribute name or as JSON name):
+            # `Model["properties"]`-style lookups must not be mistaken for the keyword
+            free = [k for k in KEYWORD_NAMES if k not in cls.properties]
+            r = rng.random()
+            if free and r < 0.15:
+                cls.properties[rng.choice(free)] = Property(val)
+            elif free and r < 0.3:
+                cls.properties["p%d" % len(cls.properties)] = Property(val, source=rng.choice(free))
+            else:
+                cls.properties["p%d" % len(cls.properties)] = Property(val)
         elif slot == "additionalProperties" and not isinstance(cls.additionalProperties, Element):
             cls.additionalProperties = val
         elif slot == "patternProperties":
